@@ -1,4 +1,5 @@
-/- Line-protocol model driver for C13 (number <-> text).  Same protocol as harness/C13/scan.c:
+/- Line-protocol model driver for C13 (number <-> text).  Runs the C-TYPED model (Strtod/ModelW.lean: uint64_t / uint32_t
+   intermediates reduced modulo 2^width); Strtod/WrapFree.lean proves it equal to the unbounded model of the theorems.  Same protocol as harness/C13/scan.c:
     num <base> <hex>      -> "ok <bits16>" | "err"
     i64 <hex> / u64 <hex> -> "ok <dec>" | "err"
     p17 <bits16>          -> "<text> x5 <bits16 read back>"
@@ -11,6 +12,7 @@
 -/
 import Driver.Util
 import JanetModel.Strtod.Model
+import JanetModel.Strtod.ModelW
 import JanetModel.Strtod.Denote
 open Driver JanetModel.Strtod
 
@@ -32,13 +34,13 @@ def step (_ : Unit) (toks : List String) : Unit × String :=
   | ["num", b, h] =>
     match b.toNat?, bytesOfHex h with
     | some base, some bs =>
-      match scanNumberBase bs base with
+      match scanNumberBaseW bs base with
       | some bits => ((), "ok " ++ hex16 bits)
       | none => ((), "err")
     | _, _ => ((), "bad-op")
   | ["num", b] =>
     match b.toNat? with
-    | some base => ((), match scanNumberBase [] base with | some bits => "ok " ++ hex16 bits | none => "err")
+    | some base => ((), match scanNumberBaseW [] base with | some bits => "ok " ++ hex16 bits | none => "err")
     | none => ((), "bad-op")
   | ["den", b, h] =>
     match b.toNat?, bytesOfHex h with
@@ -49,14 +51,14 @@ def step (_ : Unit) (toks : List String) : Unit × String :=
   | ["st", b, h] =>
     match b.toNat?, bytesOfHex h with
     | some base, some bs =>
-      match parseNumber bs base with
+      match parseNumberW bs base with
       | some p => ((), String.intercalate " " ("ok" :: toString (if p.neg then 1 else 0) :: toString p.base :: toString p.ex ::
                         toString p.mant.digits.length :: toString p.mant.first :: p.mant.digits.map toString))
       | none => ((), "err")
     | _, _ => ((), "bad-op")
   | ["st", b] =>
     match b.toNat? with
-    | some base => ((), match parseNumber [] base with | some _ => "ok" | none => "err")
+    | some base => ((), match parseNumberW [] base with | some _ => "ok" | none => "err")
     | none => ((), "bad-op")
   | ["i64", h] =>
     match bytesOfHex h with
@@ -73,7 +75,7 @@ def step (_ : Unit) (toks : List String) : Unit × String :=
     | some bits =>
       let t := print17 bits
       let ts := String.ofList t
-      ((), String.intercalate " " (List.replicate 5 ts) ++ " " ++ showScan (scanNumberBase (t.map (·.toNat)) 0))
+      ((), String.intercalate " " (List.replicate 5 ts) ++ " " ++ showScan (scanNumberBaseW (t.map (·.toNat)) 0))
     | none => ((), "bad-op")
   | ["pint", h] =>
     match parseHexNat h with
@@ -84,7 +86,7 @@ def step (_ : Unit) (toks : List String) : Unit × String :=
       let t := if v = 0 then "0" else (if neg then "-" else "") ++ toString v
       let ts := String.ofList (numberToString bits)      -- string / describe / %v / %q / %p go through number_to_string_b
       let tj := if v = 0 ∧ neg then "-0" else t   -- jdn keeps the sign of zero
-      ((), String.intercalate " " [ts, ts, ts, ts, ts, tj, ts, ts, ts, ts, tj, t] ++ " " ++ showScan (scanNumberBase (bytesOf t) 0))
+      ((), String.intercalate " " [ts, ts, ts, ts, ts, tj, ts, ts, ts, ts, tj, t] ++ " " ++ showScan (scanNumberBaseW (bytesOf t) 0))
     | none => ((), "bad-op")
   | ["pstr", h] =>
     match parseHexNat h with
@@ -105,8 +107,8 @@ def step (_ : Unit) (toks : List String) : Unit × String :=
   | ["big", b, e, h] =>
     match b.toNat?, e.toInt?, bytesOfHex h with
     | some base, some ex, some bs =>
-      let m0 := bs.foldl (fun m c => bignat_muladd m base (digitOf c)) BigNat.zero
-      let r := (scale m0 base ex).1
+      let m0 := bs.foldl (fun m c => bignat_muladdW m base (digitOf c)) BigNat.zero
+      let r := (scaleW m0 base ex).1
       ((), String.intercalate " " (toString r.digits.length :: toString r.first :: r.digits.map toString))
     | _, _, _ => ((), "bad-op")
   | _ => ((), "bad-op")
